@@ -2,7 +2,7 @@
 From Coq Require Extraction.
 From Coq Require Import ExtrOcamlBasic.
 From Coq Require Import ZArith QArith List.
-From RLV Require Import Model.Logger Model.Buffers Model.BufferRun Model.Num Model.PrioNum Model.Checkpointing Model.Tabular.
+From RLV Require Import Model.Logger Model.Buffers Model.BufferRun Model.Num Model.PrioNum Model.Checkpointing Model.Tabular Model.Tensor Model.Blocks.
 Extraction Language OCaml.
 Extraction "../build/ocaml/model.ml"
   (* base *) Nat.add Qred Qplus Qmult Qminus Qdiv Qopp Qle_bool Qeq_bool
@@ -10,4 +10,5 @@ Extraction "../build/ocaml/model.ml"
   (* Buffers *) rb_init rb_trace lap_init lap_trace sb_init sb_trace sbp_init sbp_trace mt_lap_init mt_trace mtu_init mtu_trace lastn
   (* PrioNum *) is_weights lap_priority per_priority
   (* Checkpointing *) td7_run cstate_init assess
-  (* Tabular *) update_policy q_learning_step dql_update mc_update dyna_q_update dyna_step dyna_init zeros2 greedy planning.
+  (* Tabular *) update_policy q_learning_step dql_update mc_update dyna_q_update dyna_step dyna_init zeros2 greedy planning
+  (* Blocks *) two_hot_encoding two_hot_decoding two_hot_ce_row huber masked_mse_loss avg_l1_norm linear_schedule_k transition_steps make_two_hot_bins log_softmax.
